@@ -106,6 +106,17 @@ func (p *ParentAdapter) updateState(s sm.State) {
 		select {
 		case ch <- s:
 		default:
+			// The subscriber has not picked up the previous value yet. Replace it instead of
+			// dropping the new one, so that a (buffered) subscriber always ends up seeing the
+			// most recent state; for an unbuffered channel nothing changes.
+			select {
+			case <-ch:
+			default:
+			}
+			select {
+			case ch <- s:
+			default:
+			}
 		}
 	}
 }
@@ -117,6 +128,17 @@ func (p *ParentAdapter) updateStatus(s task.Status) {
 		select {
 		case ch <- s:
 		default:
+			// The subscriber has not picked up the previous value yet. Replace it instead of
+			// dropping the new one, so that a (buffered) subscriber always ends up seeing the
+			// most recent status; for an unbuffered channel nothing changes.
+			select {
+			case <-ch:
+			default:
+			}
+			select {
+			case ch <- s:
+			default:
+			}
 		}
 	}
 }
